@@ -2,7 +2,7 @@
 (* prints every history of the bounded space: per load the writes, the defect and the statement-level typed
    configuration (every setting of the table, written or default) *)
 EXTENDS ConfigOverlay, Json
-Load(i) == [w |-> {[s |-> x[1], v |-> x[2]] : x \in hist[i].w}, defect |-> hist[i].defect,
-            decoded |-> Decoded(hist[i]), reject |-> Reject(hist[i]), typed |-> Typed(hist[i])]
+Load(i) == [w |-> {[s |-> x[1], v |-> x[2], sec |-> Row(x[1]).sec] : x \in hist[i].w}, defect |-> hist[i].defect,
+            decoded |-> Decoded(hist[i]), reject |-> Reject(hist[i]), typed |-> Typed(hist[i]), effective |-> Effective(hist[i])]
 EmitHist == Len(hist) > 0 => PrintT(<<"BEH", ToJson([i \in DOMAIN hist |-> Load(i)])>>)
 =============================================================================
